@@ -15,72 +15,6 @@ Ltac kz :=
                | progress change (482 =? 0) with false ];
   cbn.
 
-(* ---------- inclusion.RoundUpByMultipleOf ---------- *)
-
-Lemma round_up_by_multiple_of_gen fuel c v : (1 <= fuel)%nat -> 0 <= c < 2^62 -> 0 < v < 2^62 ->
-  gen_call fuel "inclusion.RoundUpByMultipleOf" I64 [c; v] =
-  Val [Z.of_N (round_up_by_multiple_of (Z.to_N c) (Z.to_N v))].
-Proof.
-  intros Hf Hc Hv. destruct fuel as [|fuel]; [lia|].
-  unfold gen_call. rewrite callf_S. cbn.
-  destruct (v =? 0) eqn:E0; [lia|]. cbn.
-  rewrite rem_nonneg by lia.
-  pose proof (Z.mod_pos_bound c v ltac:(lia)) as Hb.
-  rewrite (wrap_I64_small (c mod v)) by lia.
-  unfold round_up_by_multiple_of.
-  assert (Hm: Z.of_N (Z.to_N c mod Z.to_N v) = c mod v).
-  { rewrite N2Z.inj_mod, !Z2N.id by lia. reflexivity. }
-  assert (Hd: Z.of_N (Z.to_N c / Z.to_N v) = c / v).
-  { rewrite N2Z.inj_div, !Z2N.id by lia. reflexivity. }
-  assert (He: (Z.to_N c mod Z.to_N v =? 0)%N = (c mod v =? 0)).
-  { rewrite <- Hm. generalize (Z.to_N c mod Z.to_N v)%N as x. intros x.
-    destruct (N.eqb_spec x 0%N) as [e|e].
-    - rewrite e. reflexivity.
-    - symmetry. apply Z.eqb_neq. lia. }
-  rewrite He.
-  unfold eval_cmp.
-  destruct (c mod v =? 0) eqn:E; cbn; kz.
-  - f_equal. f_equal. lia.
-  - rewrite E0. cbn. rewrite quot_nonneg by lia.
-    assert (Hq0: 0 <= c / v) by (apply Z.div_pos; lia).
-    assert (Hq1: c / v * v <= c) by (rewrite Z.mul_comm; apply Z.mul_div_le; lia).
-    assert (Hq2: c / v <= c / v * v).
-    { rewrite <- (Z.mul_1_r (c / v)) at 1. apply Z.mul_le_mono_nonneg_l; lia. }
-    assert (Hr: Z.of_N ((Z.to_N c / Z.to_N v + 1) * Z.to_N v) = (c / v + 1) * v).
-    { rewrite N2Z.inj_mul, N2Z.inj_add, Hd. rewrite Z2N.id by lia. reflexivity. }
-    rewrite Hr, Z.mul_add_distr_r, Z.mul_1_l.
-    clear Hm Hd He Hr E Hb.
-    assert (Hc': 0 <= c < 4611686018427387904) by exact Hc.
-    assert (Hv': 0 < v < 4611686018427387904) by exact Hv.
-    clear Hc Hv.
-    generalize dependent (c / v). intros q Hq0 Hq1 Hq2.
-    rewrite (wrap_I64_small q) by lia.
-    rewrite (wrap_I64_small (q + 1)) by lia.
-    rewrite Z.mul_add_distr_r, Z.mul_1_l.
-    generalize dependent (q * v). intros p Hq1 Hq2.
-    rewrite wrap_I64_small by lia. reflexivity.
-Qed.
-
-(* v = 0: integer division by zero, a Go panic (any cursor) *)
-Lemma round_up_by_multiple_of_gen_zero fuel c : (1 <= fuel)%nat ->
-  gen_call fuel "inclusion.RoundUpByMultipleOf" I64 [c; 0] = Flt.
-Proof.
-  intros Hf. destruct fuel as [|fuel]; [lia|].
-  unfold gen_call. rewrite callf_S. cbn. reflexivity.
-Qed.
-
-(* ---------- inclusion.getMin (generic; no arithmetic, so no range condition) ---------- *)
-
-Lemma get_min_gen fuel t i j : (1 <= fuel)%nat ->
-  gen_call fuel "inclusion.getMin" t [i; j] = Val [Z.min i j].
-Proof.
-  intros Hf. destruct fuel as [|fuel]; [lia|].
-  unfold gen_call. rewrite callf_S. cbn. unfold eval_cmp.
-  destruct (i <? j) eqn:E; cbn; kz.
-  - f_equal. f_equal. lia.
-  - f_equal. f_equal. lia.
-Qed.
-
 (* ---------- share.CompactSharesNeeded / share.SparseSharesNeeded ---------- *)
 
 (* the N-valued closed forms of Model/Counter.v, read in Z *)
@@ -235,83 +169,3 @@ Proof.
   unfold gen_call. rewrite callf_S. cbn. reflexivity.
 Qed.
 
-(* ---------- square.IsPowerOfTwo ---------- *)
-
-Lemma land_small_l n a b : 0 <= n -> 0 <= a < 2^n -> 0 <= Z.land a b < 2^n.
-Proof.
-  intros Hn Ha.
-  assert (E: Z.land a b = Z.land a b mod 2^n).
-  { rewrite <- (Z.land_ones (Z.land a b) n) by exact Hn.
-    rewrite (Z.land_comm a b), <- Z.land_assoc, (Z.land_ones a n) by exact Hn.
-    rewrite (Z.mod_small a (2^n)) by exact Ha. reflexivity. }
-  rewrite E. apply Z.mod_pos_bound. apply Z.pow_pos_nonneg; lia.
-Qed.
-
-Lemma lor_small n a b : 0 <= n -> 0 <= a < 2^n -> 0 <= b < 2^n -> 0 <= Z.lor a b < 2^n.
-Proof.
-  intros Hn Ha Hb.
-  assert (E: Z.lor a b = Z.lor a b mod 2^n).
-  { rewrite <- (Z.land_ones (Z.lor a b) n) by exact Hn.
-    rewrite Z.land_lor_distr_l, !Z.land_ones by exact Hn.
-    rewrite (Z.mod_small a), (Z.mod_small b) by assumption. reflexivity. }
-  rewrite E. apply Z.mod_pos_bound. apply Z.pow_pos_nonneg; lia.
-Qed.
-
-Lemma land_range_signed n a b : 0 <= n ->
-  - 2^n <= a < 2^n -> - 2^n <= b < 2^n -> - 2^n <= Z.land a b < 2^n.
-Proof.
-  intros Hn Ha Hb.
-  destruct (Z.le_gt_cases 0 a) as [Ha0|Ha0].
-  { pose proof (land_small_l n a b Hn ltac:(lia)). lia. }
-  destruct (Z.le_gt_cases 0 b) as [Hb0|Hb0].
-  { pose proof (land_small_l n b a Hn ltac:(lia)) as H. rewrite Z.land_comm in H. lia. }
-  rewrite <- (Z.lnot_involutive (Z.land a b)), Z.lnot_land.
-  assert (La: Z.lnot a = - a - 1) by (unfold Z.lnot; lia).
-  assert (Lb: Z.lnot b = - b - 1) by (unfold Z.lnot; lia).
-  pose proof (lor_small n (Z.lnot a) (Z.lnot b) Hn ltac:(lia) ltac:(lia)) as H.
-  generalize dependent (Z.lor (Z.lnot a) (Z.lnot b)). intros y Hy.
-  unfold Z.lnot. lia.
-Qed.
-
-Lemma is_power_of_two_gen_i64 fuel x : (1 <= fuel)%nat -> - 2^63 < x < 2^63 ->
-  gen_call fuel "square.IsPowerOfTwo" I64 [x] = Val [b2z (is_pow2 x)].
-Proof.
-  intros Hf Hx.
-  pose proof (land_range_signed 63 x (x - 1) ltac:(lia) ltac:(lia) ltac:(lia)) as Hl.
-  assert (Hx': -9223372036854775808 < x < 9223372036854775808) by exact Hx.
-  assert (Hl': -9223372036854775808 <= Z.land x (x - 1) < 9223372036854775808) by exact Hl.
-  clear Hx Hl.
-  destruct fuel as [|fuel]; [lia|].
-  unfold gen_call. rewrite callf_S. cbn. unfold eval_cmp, is_pow2.
-  rewrite (wrap_I64_small (x - 1)) by lia.
-  rewrite wrap_I64_small by lia.
-  destruct (Z.land x (x - 1) =? 0); cbn; kz; reflexivity.
-Qed.
-
-(* At x = -2^63 the two sides differ: in int64, input-1 wraps to 2^63-1 and the Go function says
-   "power of two"; the model computes on unbounded integers and says no.  So the range above is exact. *)
-Lemma is_power_of_two_gen_i64_min fuel : (1 <= fuel)%nat ->
-  gen_call fuel "square.IsPowerOfTwo" I64 [- 2^63] = Val [1] /\ is_pow2 (- 2^63) = false.
-Proof.
-  intros Hf. destruct fuel as [|fuel]; [lia|].
-  split; [|vm_compute; reflexivity].
-  unfold gen_call. rewrite callf_S. vm_compute. reflexivity.
-Qed.
-
-(* uint64 instantiation: agreement on the whole type *)
-Lemma is_power_of_two_gen_u64 fuel x : (1 <= fuel)%nat -> 0 <= x < 2^64 ->
-  gen_call fuel "square.IsPowerOfTwo" U64 [x] = Val [b2z (is_pow2 x)].
-Proof.
-  intros Hf Hx.
-  pose proof (land_small_l 64 x (x - 1) ltac:(lia) Hx) as Hl.
-  assert (Hx': 0 <= x < 18446744073709551616) by exact Hx.
-  assert (Hl': 0 <= Z.land x (x - 1) < 18446744073709551616) by exact Hl.
-  clear Hx Hl.
-  destruct fuel as [|fuel]; [lia|].
-  unfold gen_call. rewrite callf_S.
-  destruct (Z.eq_dec x 0) as [->|Hx0]; [vm_compute; reflexivity|].
-  cbn. unfold eval_cmp, is_pow2.
-  rewrite (wrap_U64_small (x - 1)) by lia.
-  rewrite wrap_U64_small by lia.
-  destruct (Z.land x (x - 1) =? 0); cbn; kz; reflexivity.
-Qed.
